@@ -26,6 +26,9 @@ fn check(name: &str) -> Option<String> {
         Some(format!("lookup_control_from_str does not know .{}", name))
       } else if got != want {
         Some(format!("{:?} parses to operator {:?}, the lookup says {:?}", doc, got, want))
+      } else if got.map(|g| g.to_string()) != Some(format!(".{}", name)) {
+        // independent table: the operator's own spelling (Display) must be the name that was written
+        Some(format!("{:?} parses to the operator spelled {:?}", doc, got.map(|g| g.to_string())))
       } else {
         None
       }
